@@ -10,6 +10,8 @@
     (FR (K hexlabel*) (K hexlabel*) (R cell*)*)   DataFrame: index, columns, rows
   ops:  (liftx call <types> <fn> <hex top> (L arg*) (D kw*))     types = ltd | plain | all,  fn = rec | ident
         (liftx txt lower|upper|strip v)
+        (liftx txt replace v old new)      old a string of one character, new a string or None
+        (liftx txt split v sep dedup)      sep a string of one character, dedup a bool
 -/
 import PygModel.LiftX
 import PygModel.Txt
@@ -103,6 +105,30 @@ def handle1 (op : String) (args : List Sexp) : Option String := do
       let top ← hexDecode top
       match ← ofSexp as, ← ofSexp kw with
       | .list as, .dict 0 kw => pure (reply (callLiftedX T f top as kw))
+      | _, _ => Option.none
+  | "txt", [.atom "split", v, sep, dd] =>
+      -- round k6: `pyg_base.split(v, sep, dedup)` with a one-character separator (closed model `libSplit`, Txt.lean)
+      let v ← Val.ofSexp v
+      match ← Val.ofSexp sep, ← Val.ofSexp dd with
+      | .cell (.str sp), .cell (.bool d) =>
+        match sp.toList with
+        | [_] =>
+          match libSplit v sp d with
+          | .ok v => pure ("ok " ++ v.render)
+          | .error e => pure ("err " ++ e.render)
+        | _ => Option.none
+      | _, _ => Option.none
+  | "txt", [.atom "replace", v, old, nw] =>
+      -- round k6: `pyg_base.replace(v, old, new)` with `old` one character, `new` a string or None (closed model `libReplace`)
+      let v ← Val.ofSexp v
+      match ← Val.ofSexp old, ← Val.ofSexp nw with
+      | .cell (.str o), nv =>
+        match o.toList, nv with
+        | [_], .cell (.str _) | [_], .cell .none =>
+          match libReplace v o nv with
+          | .ok v => pure ("ok " ++ v.render)
+          | .error e => pure ("err " ++ e.render)
+        | _, _ => Option.none
       | _, _ => Option.none
   | "txt", [.atom name, v] =>
       let v ← Val.ofSexp v
